@@ -32,7 +32,7 @@ import ast
 from pathlib import Path
 
 from src.core.base import BaseLintContext, MultiLanguageLintRule
-from src.core.linter_utils import load_linter_config
+from src.core.linter_utils import load_linter_config, path_in_project
 from src.core.types import Violation
 from src.core.violation_utils import get_violation_line, has_python_noqa, has_typescript_noqa
 from src.linter_config.directive_markers import has_bare_line_ignore
@@ -340,7 +340,7 @@ class PrintStatementRule(MultiLanguageLintRule):  # thailint: ignore[srp]
             Violation or None if should not flag
         """
         # Check if test file (skip test files)
-        if self._is_test_file(context.file_path):
+        if self._is_test_file(path_in_project(context)):
             return None
 
         violation = self._violation_builder.create_typescript_violation(
